@@ -101,3 +101,8 @@ CHECKS["C16"] = dict(level="fault_enumeration", engine="E3", design_ref="DESIGN.
    technique="exhaustive enumeration of referenced/referencing arrangements in every document order x every single-fault placement (dangling reference, duplicated id), with reference substitution, identity snapshots and atomicity oracle",
    text="All assignments of roles to 2-4 (5) party slots of a dataset (referenced with three child sets, referencing with every choice of target, references before and after their target, several references to one id), with-role parties carrying one or two roles, attributeList and dataTable references; for each arrangement the fault-free expansion is compared with a spec-level substitution plus identity/registry/parent-link/validity/independence checks, and every placement of one dangling reference or duplicated id must raise ValueError leaving tree and registry exactly as before.",
    note="Precondition of the statement is built into the generator; slots per skeleton and the reduced independence edit menu are the bounds.")
+
+CHECKS["C14"] = dict(level=MC, engine="E1", design_ref="DESIGN.md section 3 C14",
+   technique="explicit-state BFS (depth-bounded) over create/copy/import/attach/replace/delete/prune/expand histories, lock-step with a set model of the registry",
+   text="Every history up to depth 6 (7) with at most 10 (12) live nodes over 7 creation templates, 3 XML imports, copy of any node, attach, replace with and without deletion, delete by id with and without descendants (including nodes whose descendants were already deleted), prune in both modes and expand is executed on the real code; after every transition Node.store must equal the model's live set, every id must map to its node and all ids ever created must be distinct; nodes discarded by prune/expand/replace must be gone and nodes still in a tree must not be unregistered by them.",
+   note="Depth and live-node cap bound the search (reported as a cap, not a fixpoint); which nodes prune/expand take out of the tree is judged by C15/C16; uuid1 uniqueness is observed only.")
